@@ -19,6 +19,9 @@ along with the GNU MP Library; see the file COPYING.LIB.  If not, write to
 the Free Software Foundation, Inc., 51 Franklin Street, Fifth Floor, Boston,
 MA 02110-1301, USA. */
 
+#include <stdio.h>
+#include <stdlib.h>
+#include <limits.h>
 #include "mpir.h"
 #include "gmp-impl.h"
 
@@ -28,6 +31,14 @@ mpf_init2 (mpf_ptr r, mp_bitcnt_t prec_in_bits)
   mp_size_t prec;
 
   prec = __GMPF_BITS_TO_PREC (prec_in_bits);
+  /* _mp_prec is an int (and prec+1 limbs are allocated): a larger precision
+     cannot be recorded, and storing it would leave a wrong, possibly negative
+     precision behind */
+  if (UNLIKELY (prec > INT_MAX - 1))
+    {
+      fprintf (stderr, "gmp: overflow in mpf type\n");
+      abort ();
+    }
   r->_mp_size = 0;
   r->_mp_exp = 0;
   r->_mp_prec = prec;
